@@ -1487,3 +1487,6 @@ MA('C07', 'soft thresholding with the wrong sign', PROXF,
 MA('C07', 'box projection clips at the lower bound only', PROXF,
    'proximal_box_constraint.ProxOpBoxConstraint._call',
    'out.ufuncs.minimum(upper, out=out)', 'pass', 'IndicatorBox')
+M('C15', 'element from a callable no longer owns its data (regression)', 'odl/discr/discr_space.py',
+  "                sampled = np.array(sampled, copy=True)",
+  "                pass", 'C15-R4c')
